@@ -102,6 +102,18 @@ def run(cx):
                         r.fail(f"{q}/writes-pin-table", (core, n), "pin table written outside the five pin helpers")
             if isinstance(n, ast.Global) and any(x in PIN_DICTS for x in n.names):
                 r.fail(f"{q}/rebinds-pin-table", (core, n), "pin table rebound")
+    # a stored pin value is only replaced by the write helpers; anything else may at most seed a missing entry
+    for q in ("pin_mode", "digital_read", "analog_read"):
+        fn = core.func(q)
+        for n in walk_local(fn, include_self=False):
+            if isinstance(n, (ast.Assign, ast.AugAssign)):
+                for t in (n.targets if isinstance(n, ast.Assign) else [n.target]):
+                    if isinstance(t, ast.Subscript) and isinstance(t.value, ast.Name) and t.value.id in ("_digital_values", "_analog_values"):
+                        from ..flow import lexical_conds
+                        cs = lexical_conds(core, n)
+                        kx = norm(t.slice)
+                        seeded_only = any((c == f"{kx} not in {t.value.id}" and tv) or (c == f"{kx} in {t.value.id}" and not tv) for c, tv in cs)
+                        r.check(seeded_only, f"{q}/overwrites-written-value[{t.value.id}]", (core, n), f"`{stmt_key(n)}` in {q}() can replace a value that digital_write/analog_write stored: a later read would not return the last value written", sample=f"{q}: seeds {t.value.id} only when absent")
     np_ = core.func("_normalise_pin")
     ints = [0, 7, 13]
     names = ["A0", "A1", "A5", "a0", "LED_BUILTIN", "D7"]
@@ -221,6 +233,8 @@ def run(cx):
         r.check(norm(fb) in ("sleep_func or time.sleep", "time.sleep if sleep_func is None else sleep_func", "sleep_func if sleep_func is not None else time.sleep"), "sleep/sleeper=injected-or-time.sleep", (utils, fb), f"sleeper is `{norm(fb)}`")
 
     rule_sensors(cx, "C20-SENSORS")
+    from . import c10
+    c10.rule_global_state(cx, "C20-INSTANCE-STATE", [utils, btn, pot, ult, ser], floor=15)
 
     # ---- C20-SERIAL --------------------------------------------------------------------------
     r = cx.rule("C20-SERIAL", "SerialMonitor.write returns str(value) and sends exactly (str(value)+newline).encode('utf-8') once, only on an open port; read validates `emit` before anything else", floor=5)
